@@ -13,18 +13,22 @@ PROP = "C04"
 
 
 def small_configs(tier):
-    """(name, prefix, threads, scripts) explored systematically, both pollers."""
+    """(name, prefix, later, threads, scripts) explored systematically, both pollers.
+    later = code of the loop thread between successive calls of loop() (re-entry)."""
     cfgs = [
-        ("two_submitters", [], [["q 1"], ["q 2"]], {}),
-        ("nested_in_functor", [], [["q 1", "quit"]], {1: ["q 2"]}),
-        ("callback_and_inline", [], [["r 1"], ["ev 9"]], {9: ["q 2"], 1: ["r 3", "q 4"]}),
-        ("prefix_inline_quit", ["r 5"], [["q 1"], ["quit"]], {5: ["r 6"]}),
-        ("queue_during_drain", [], [["q 1", "q 2"], ["q 3"]], {1: ["q 4"], 4: ["q 5"]}),
+        ("two_submitters", [], [], [["q 1"], ["q 2"]], {}),
+        ("nested_in_functor", [], [], [["q 1", "quit"]], {1: ["q 2"]}),
+        ("callback_and_inline", [], [], [["r 1"], ["ev 9"]], {9: ["q 2"], 1: ["r 3", "q 4"]}),
+        ("prefix_inline_quit", ["r 5"], [], [["q 1"], ["quit"]], {5: ["r 6"]}),
+        ("queue_during_drain", [], [], [["q 1", "q 2"], ["q 3"]], {1: ["q 4"], 4: ["q 5"]}),
+        ("queue_before_loop", ["q 1"], [], [["q 2"]], {}),
+        ("reenter_after_quit", [], [["q 7", "r 8"]], [["quit", "q 3", "quit"]], {}),
     ]
     if tier != "quick":
         cfgs += [
-            ("three_submitters", [], [["q 1", "r 2"], ["q 3"], ["ev 9", "q 4"]], {9: ["r 5"], 3: ["q 6"]}),
-            ("quit_in_functor", [], [["q 1", "q 2"], ["q 3"]], {1: ["quit"], 3: ["q 4"]}),
+            ("three_submitters", [], [], [["q 1", "r 2"], ["q 3"], ["ev 9", "q 4"]], {9: ["r 5"], 3: ["q 6"]}),
+            ("quit_in_functor", [], [], [["q 1", "q 2"], ["q 3"]], {1: ["quit"], 3: ["q 4"]}),
+            ("quit_in_functor_reenter", [], [["q 5"]], [["q 1"], ["quit"]], {1: ["quit"]}),
         ]
     return cfgs
 
@@ -72,10 +76,19 @@ def gen_random_case(rng, cid, allow_pre_queue):
         prefix.append("r %d" % t)
         if rng.random() < 0.5:
             scripts[t] = ["r %d" % next(fresh)]
-    elif r < 0.32 and allow_pre_queue:
+    elif r < 0.40 and allow_pre_queue:
         prefix.append("q %d" % next(fresh))
+    # re-entry: loop() is called again after it returned (needs quits to get there)
+    later = []
+    if rng.random() < 0.2:
+        for _ in range(rng.randint(1, 2)):
+            seg = []
+            for _ in range(rng.randint(0, 2)):
+                seg.append("%s %d" % (rng.choice(["q", "r"]), next(fresh)))
+            later.append(seg)
+            threads[rng.randrange(nthr)].append("quit")
     return looplib.mkcase(cid, "loop", schedlib.random_source(rng, pspur=0), prefix=prefix, threads=threads, scripts=scripts,
-                          poller=rng.choice(["epoll", "poll"]), pts=rng.choice([1, 1, 1, 0]), tag="random")
+                          poller=rng.choice(["epoll", "poll"]), pts=rng.choice([1, 1, 1, 0]), tag="random", later=later)
 
 
 def nontrivial(run):
@@ -113,16 +126,16 @@ def run(chk, replay=None):
         if corpus:
             absorb(corpus, R.run_impl(corpus))
         bound = 2 if tier == "quick" else 3
-        per_cfg = 600 if tier == "quick" else 20000
+        per_cfg = 450 if tier == "quick" else 20000
         cfgs = []
-        for (name, prefix, threads, scripts) in small_configs(tier):
+        for (name, prefix, later, threads, scripts) in small_configs(tier):
             for poller in ("epoll", "poll"):
-                cfgs.append((name + "_" + poller, prefix, threads, scripts, poller))
+                cfgs.append((name + "_" + poller, prefix, later, threads, scripts, poller))
         enums = {c[0]: schedlib.Enumerator(bound, per_cfg) for c in cfgs}
         counter = 0
         while any(e.active() for e in enums.values()):
             cases, owners = [], []
-            for (name, prefix, threads, scripts, poller) in cfgs:
+            for (name, prefix, later, threads, scripts, poller) in cfgs:
                 e = enums[name]
                 if not e.active():
                     continue
@@ -131,7 +144,7 @@ def run(chk, replay=None):
                 for (p, _) in b:
                     counter += 1
                     cs.append(looplib.mkcase("%s_%d" % (name, counter), "loop", schedlib.list_source(p), prefix=prefix,
-                                             threads=threads, scripts=scripts, poller=poller, tag="systematic"))
+                                             threads=threads, scripts=scripts, poller=poller, tag="systematic", later=later))
                 cases += cs
                 owners.append((e, b, cs))
             runs = R.run_impl(cases)
@@ -141,7 +154,7 @@ def run(chk, replay=None):
                     if runs[c.cid].schedule is None:
                         runs[c.cid].schedule = [ch[1] for ch in runs[c.cid].choices]
                 e.feed(b, [runs[c.cid] for c in cs])
-        for (name, prefix, threads, scripts, poller) in cfgs:
+        for (name, prefix, later, threads, scripts, poller) in cfgs:
             e = enums[name]
             stats["systematic_runs"] += e.nruns
             stats["configs"][name] = {"runs": e.nruns, "exhaustive_within_bound": e.exhaustive(), "preemption_bound": bound}
